@@ -31,10 +31,13 @@ type c08Step struct {
 }
 
 type c08Case struct {
-	Rules     []interface{}     `json:"rules"`
-	Text      string            `json:"text"`
-	SoloTexts map[string]string `json:"solo_texts"`
-	Steps     []c08Step         `json:"history"`
+	Rules       []interface{}     `json:"rules"`
+	Text        string            `json:"text"`
+	SoloTexts   map[string]string `json:"solo_texts"`
+	Steps       []c08Step         `json:"history"`
+	RemovedText string            `json:"rule_built_and_removed_again,omitempty"`
+	RemovedName string            `json:"removed_rule_name,omitempty"`
+	RemovedVia  string            `json:"removed_through,omitempty"`
 }
 
 var c08Clauses = []string{"C01", "C02", "C03", "C04", "C06", "C10", "C14", "C16"}
@@ -66,6 +69,7 @@ func c08Apply(base *val.Case, prep *val.Prepared, kb *ast.KnowledgeBase, st c08S
 			// is it the reuse? ask a fresh instance
 			fresh, ferr := obs.Instance(prep.Lib)
 			if ferr == nil {
+				val.ApplyRemoved(&c, fresh)
 				if fv2, _, _ := c11RunOn(&c, prep, fresh, nil, nil); len(fv2) == 0 {
 					for _, m := range fv {
 						v = append(v, "FetchMatchingRules on the reused instance: "+m)
@@ -149,7 +153,7 @@ func TestC08(t *testing.T) {
 	rc.Probes, rc.Marks = true, true
 	rc.MinRules, rc.MaxRules = 2, 5
 	rc.ExprDepth = 2
-	cfg := rsGenCfg{Rules: rc, Vary: true}
+	cfg := rsGenCfg{Rules: rc, Vary: true, RemovedSibling: true}
 	check(t, 0, budget(800, 10000), func(rt *rapid.T) {
 		base, rs := genRSCase(rt, cfg)
 		// a quarter of the rule sets have a rule whose condition is (or starts with) a bare top-level variable
@@ -179,7 +183,8 @@ func TestC08(t *testing.T) {
 		if err != nil {
 			rt.Fatalf("harness: %v", err)
 		}
-		hist := &c08Case{Rules: gast.EncodeRules(base.Rules), Text: base.Text, SoloTexts: base.SoloTexts}
+		val.ApplyRemoved(base, kb)
+		hist := &c08Case{Rules: gast.EncodeRules(base.Rules), Text: base.Text, SoloTexts: base.SoloTexts, RemovedText: base.RemovedText, RemovedName: base.RemovedName, RemovedVia: base.RemovedVia}
 		earlierAbnormal, earlierRetract, earlierFull := false, false, false
 		var summaries []string
 		step := func(op string) func(*rapid.T) {
@@ -263,7 +268,7 @@ func init() {
 		if err != nil {
 			return err
 		}
-		base := &val.Case{Rules: rules, Text: h.Text, SoloTexts: h.SoloTexts, Listeners: 1}
+		base := &val.Case{Rules: rules, Text: h.Text, SoloTexts: h.SoloTexts, Listeners: 1, RemovedText: h.RemovedText, RemovedName: h.RemovedName, RemovedVia: h.RemovedVia}
 		for try := 0; try < 16; try++ {
 			prep, err := val.Prepare(base)
 			if err != nil {
@@ -273,6 +278,7 @@ func init() {
 			if err != nil {
 				return err
 			}
+			val.ApplyRemoved(base, kb)
 			for _, st := range h.Steps {
 				v, _, _, _ := c08Apply(base, prep, kb, st)
 				if len(v) > 0 {
